@@ -128,7 +128,7 @@ def o_detect(case):
             _must_reject(frame, framing.flip_bits(frame, [p]), f"single bit {p}")
             evals += 1
         digs = [digest([case["frame"], "s", p]) for p in range(nbits)] if nt else []
-        cls = ["all_single"]
+        cls = ["all_single"] + (["zero-crc-frame"] if frame[-3:] == b"\0\0\0" else [])
     elif mode == "all_burst_starts":
         span, seed = case["span"], case["seed"]
         for s in range(nbits - span + 1):
@@ -158,7 +158,7 @@ def o_detect(case):
         digs = [digest([case["frame"], pos])] if nt else []
         if kind == "lower-length":
             assert len(pos) <= 3 and pos[-1] - pos[0] < 24
-        cls = [kind, "in-header" if pos[0] < 24 else ("in-crc" if pos[-1] >= nbits - 24 else "in-payload")]
+        cls = [kind] + (["zero-crc-frame"] if frame[-3:] == b"\0\0\0" else []) + ["in-header" if pos[0] < 24 else ("in-crc" if pos[-1] >= nbits - 24 else "in-payload")]
     return Res(nontrivial=nt, classes=cls, evals=evals, digests=digs)
 
 
@@ -191,8 +191,19 @@ def inner_length_of(frame):
     return None
 
 
+@st.composite
+def zero_crc_frames(draw, tier):
+    """valid frame whose correct CRC trailer is 00 00 00 (payload ends with the CRC of what precedes it)"""
+    pre = draw(gen.unknown_payloads("small"))
+    n = len(pre) + 3
+    head = bytes([0xD3, n >> 8, n & 0xFF]) + pre
+    f = head + framing.crc_table(head).to_bytes(3, "big") + b"\x00\x00\x00"
+    assert framing.frame_problem(f) is None
+    return f
+
+
 def _frames(tier):
-    return st.one_of(gen.payloads(tier).map(framing.build_frame), gen.payloads(tier).map(framing.build_frame), nested_prefix_frames(tier))
+    return st.one_of(zero_crc_frames(tier), gen.payloads(tier).map(framing.build_frame), gen.payloads(tier).map(framing.build_frame), nested_prefix_frames(tier))
 
 
 @st.composite
@@ -280,7 +291,7 @@ def s_valoff(draw, tier):
 
 SUBS = [
     Sub("crc_value", o_value, strategy=s_value, enum=e_value, examples=(250, 6000), rule="data length > 6", need={"len1029": 1, "len0": 1}),
-    Sub("detect_patterns", o_detect, strategy=s_detect, examples=(250, 8000), rule="frame length > 6; distinct (frame, positions)", need={"pair": 1, "odd": 1, "burst": 1, "lower-length": 1}),
+    Sub("detect_patterns", o_detect, strategy=s_detect, examples=(250, 8000), rule="frame length > 6; distinct (frame, positions)", need={"pair": 1, "odd": 1, "burst": 1, "lower-length": 1, "zero-crc-frame": 1}),
     Sub(
         "detect_sweeps",
         o_detect,
